@@ -20,8 +20,9 @@ def scenario_list(tier, seed):
     sid = 0
     for gi, (n, edges) in enumerate(fam):
         for sim in simruns.ALL + ["simple_contagion_tuple_statuses", "simple_contagion_many_statuses", "simple_contagion_directed",
-                                  "fast_SIR+R0", "Gillespie_SIR+R0", "fast_nonMarkov_SIR+R0", "discrete_SIR+R0"]:
-            if sim.endswith("+R0") and n < 5:
+                                  "fast_SIR+R0", "Gillespie_SIR+R0", "fast_nonMarkov_SIR+R0", "discrete_SIR+R0",
+                                  "fast_SIR+R0default", "fast_nonMarkov_SIR+R0default", "Gillespie_SIR+R0default"]:
+            if "+R0" in sim and n < 5:
                 continue
             for s in ((11, 12) if tier == "quick" else (11, 12, 13, 14)):
                 out.append({"id": sid, "sim": sim, "n": n, "edges": edges, "seed": s * 7 + gi, "weighted": (s % 2 == 0)})
@@ -103,6 +104,9 @@ def run_one(EoN, sc, full):
         if sim.endswith("+R0"):
             sim = sim[:-3]
             ikw = {"initial_infecteds": [nm[0], nm[2], nm[-1]], "initial_recovereds": [nm[1], nm[3]]}
+        if sim.endswith("+R0default"):
+            sim = sim[:-len("+R0default")]
+            ikw = {"initial_recovereds": [nm[1], nm[3]]}      # the index case is left to the simulator
         kind = simruns.kind_of(sim)
         call = {"tau": 1.5, "gamma": 1.0, "p": 0.6, "tmin": 0, "tmax": (None if kind == "SIR" else 4),
                 "init_kw": ikw, "weighted": sc["weighted"]}
@@ -119,6 +123,36 @@ def run_one(EoN, sc, full):
     summ = r.summary()
     arrs = [tuple(float(x) for x in summ[0])] + [tuple(float(x) for x in summ[1][s]) for s in kind_sts]
     return {"full": (hist, tr), "arrays": arrs}
+
+
+def abort_one(EoN, sc):
+    """an event-driven run that is aborted by an exception half way (a user rule that raises)"""
+    import networkx as nx
+    import random
+    n = sc["n"]
+    nm = names(n)
+    G = nx.Graph()
+    G.add_nodes_from(nm)
+    for (u, v) in sc["edges"]:
+        G.add_edge(nm[u - 1], nm[v - 1])
+    calls = {"n": 0}
+
+    class Stop(Exception):
+        pass
+
+    def rec(u, *a):
+        calls["n"] += 1
+        if calls["n"] >= 2:
+            raise Stop()
+        return 1.0
+    random.seed(5)
+    try:
+        if sc["sim"] in ("fast_SIS", "fast_nonMarkov_SIS"):
+            EoN.fast_nonMarkov_SIS(G, trans_time_fxn=lambda u, v, rd: [0.25], rec_time_fxn=rec, initial_infecteds=[nm[0], nm[-1]], tmax=3)
+        else:
+            EoN.fast_nonMarkov_SIR(G, trans_time_fxn=lambda u, v: 0.25, rec_time_fxn=rec, initial_infecteds=[nm[0], nm[-1]])
+    except Stop:
+        pass
 
 
 def run_all(tier, seed, only=None):
@@ -147,6 +181,10 @@ def run_all(tier, seed, only=None):
                 b = run_one(EoN, sc, full)
                 res[mode] = fp(a.get("full", a["arrays"]))
                 res[mode + ":repeat"] = fp(b.get("full", b["arrays"]))
+                if sc["sim"] in ("fast_SIS", "fast_SIR", "fast_nonMarkov_SIR", "fast_nonMarkov_SIS") and mode == "arrays":
+                    abort_one(EoN, sc)
+                    c = run_one(EoN, sc, full)
+                    res[mode + ":after-abort"] = fp(c.get("full", c["arrays"]))
                 res[mode + ":arrays"] = fp(a["arrays"])
                 if len(hidden) > before:
                     res[mode + ":hidden"] = hidden[before]
